@@ -195,3 +195,21 @@ claim('C10', 'exploration',
       'the leading digit across the leading-zero limit.',
       'runtime monitoring: exhaustive acceptance sweep and differential against exact rational arithmetic under ASan/UBSan',
       'DESIGN.md section 4, C10')
+
+claim('C18', 'exploration',
+      'Every string of length <= 4 (thorough 5) over the 19 syntactically significant characters (both quotes, ; # $ _ '
+      '[ ] { } blank tab LF CR backslash ? . a 1) x allow_unquoted x allow_triple_quoted, at limit 2048 and at a small '
+      'limit, plus long strings (line lengths 2038..2060, semicolon runs, trailing blanks, both triple delimiters, fold / '
+      'prefix look-alikes, supplementary characters) and the reserved-word family (every case mask, truncation, '
+      'insertion, substitution, look-alike letter): cif_analyze_string statistics against an independent recount; the '
+      'recommended delimiter must be permitted, fit the limit and be admissible, and a simple form must be chosen when '
+      'one fits with eight characters to spare; the string presented with that delimiter (after a blank, at column 1 or '
+      'flush against column 2048; text fields folded / prefixed as the flags direct) is parsed back in probe documents '
+      'and must be read as exactly that string without error.  set_quoted / try_quoted(NOT_QUOTED) outcome classes and '
+      'cif_is_reserved_string answers are compared with the CIF 2.0 rule, and everything they let through is read back '
+      'whitespace-delimited.',
+      'Strings containing CR are judged for statistics and delimiter but not read back (line terminators are normalised '
+      'by the parser).  Vertical tab is not judged as trailing blank.  has_reserved_start is judged only through the '
+      'read-back of the text field it directs.',
+      'runtime monitoring: exhaustive short-string sweep with recount oracle and parser read-back differential under ASan/UBSan',
+      'DESIGN.md section 4, C18')
